@@ -62,6 +62,17 @@ def main():
     for gname in (["arith", "weighted"] if quick else ["arith", "weighted", "nested", "mutual", "refined"]):
         configs.append({"rep": "tree", "alg": "SGP", "grammar": gname, "seed": R.randint(0, 10 ** 6), "init": "standard",
                         "evals": 40, "pop": 8, "decider": "grow", "minimize": R.random() < 0.5})
+    # few fitness levels: equally fit individuals straddle the elitism cut (which of them survives may depend on population
+    # order and the seeded source only)
+    for rk in (reps if not quick else ["tree", "ge", "dsge"]):
+        configs.append({"rep": rk, "alg": "GP", "grammar": "arith", "seed": R.randint(0, 10 ** 6), "init": "standard", "step": "elite",
+                        "evals": 60, "pop": 8, "decider": "grow", "minimize": R.random() < 0.5, "levels": 2})
+    configs.append({"rep": "tree", "alg": "SGP", "grammar": "arith", "seed": R.randint(0, 10 ** 6), "init": "grow",
+                    "evals": 60, "pop": 8, "decider": "grow", "minimize": R.random() < 0.5, "levels": 2, "elitism": 3})
+    # a variable list with a repeated name
+    for rk, alg in (("tree", "GP"), ("ge", "HC"), ("dsge", "RS"), ("tree", "OPO")):
+        configs.append({"rep": rk, "alg": alg, "grammar": "dupvars", "seed": R.randint(0, 10 ** 6), "init": "standard",
+                        "evals": 30, "pop": 8, "decider": "grow", "minimize": R.random() < 0.5})
     for alg in ["GP", "HC", "RS", "OPO"]:
         configs.append({"rep": R.choice(reps), "alg": alg, "grammar": "refined", "seed": R.randint(0, 10 ** 6), "init": "standard",
                         "evals": 30, "pop": 8, "decider": "grow", "minimize": R.random() < 0.5, "own_tracker": True})
